@@ -5,12 +5,13 @@ open Drv Stream
 
 namespace DrvC19
 
-/-- the constants of the tree -/
-def P : Params := ⟨Generated.epochLen, Generated.streamGsfaBatchSize, Generated.maxSlotsToStream⟩
+/-- the constants of the tree; `hb` = the reader honours `before` (measured by the harness, on the `world` line) -/
+def P (hb : Bool) : Params := ⟨Generated.epochLen, Generated.streamGsfaBatchSize, Generated.maxSlotsToStream, hb⟩
 
 structure St where
   epochs : Array (Nat × Array (Nat × Array Tx)) := #[]
   frozen : Option (List Epoch) := none
+  hb : Bool := false
 
 def St.archive (st : St) : List Epoch :=
   st.epochs.toList.map fun (n, bs) => { num := n, blocks := bs.toList.map fun (s, ts) => { slot := s, txs := ts.toList } }
@@ -37,7 +38,7 @@ def showBlocks (l : List Block) : String :=
 
 def step (st : St) (l : String) : St × String :=
   match words l with
-  | "world" :: _ => ({}, "ok")
+  | "world" :: ws => ({ hb := ws.contains "before=1" }, "ok")
   | "acct" :: _ => (st, "ok")
   | ["epoch", n] => ({ st with epochs := st.epochs.push (n.toNat!, #[]), frozen := none }, "ok")
   | ["block", s, _] =>
@@ -55,12 +56,12 @@ def step (st : St) (l : String) : St × String :=
         ({ st with epochs := st.epochs.pop.push (n, bs.pop.push (bslot, ts.push t)), frozen := none }, "ok")
   | "streamtx" :: lo :: hi :: g :: _via :: fw =>
     let es := st.frozen.getD st.archive
-    let r := streamTransactions P es lo.toNat! (hiOf hi) (parseFilter fw) (g == "gsfa=1")
+    let r := streamTransactions (P st.hb) es lo.toNat! (hiOf hi) (parseFilter fw) (g == "gsfa=1")
     ({ st with frozen := some es }, showTxs r)
   | ["streamblocks", lo, hi, f] =>
     let es := st.frozen.getD st.archive
     let flt : Option (List Acct) := if f = "nil" then none else some (ids f)
-    ({ st with frozen := some es }, showBlocks (streamBlocks P es lo.toNat! (hiOf hi) flt))
+    ({ st with frozen := some es }, showBlocks (streamBlocks (P st.hb) es lo.toNat! (hiOf hi) flt))
   | _ => (st, "bad-op")
 
 /-- model side of the C19 line protocol: one answer line per op line -/
